@@ -1,0 +1,38 @@
+//go:build verif
+
+package verifhook
+
+import "time"
+
+// The cluster seam: under the verif tag the wiring files internal/raft/raft.go and
+// internal/memberlist/memberlist.go are replaced by twins that hand the node's real state
+// machine and real gossip delegate to the simulation harness instead of starting
+// hashicorp/raft and hashicorp/memberlist on real sockets.
+
+// ApplyFuture has the method set of hashicorp/raft's ApplyFuture.
+type ApplyFuture interface {
+	Error() error
+	Response() interface{}
+	Index() uint64
+}
+
+// RaftNode is what the harness gives a node in place of a *raft.Raft.
+type RaftNode interface {
+	Apply(cmd []byte, timeout time.Duration) ApplyFuture
+	IsLeader() bool
+	HasJoined() bool
+	Snapshot() error
+	Shutdown()
+	AddVoter(id, addr string) error
+	RemoveServer(id string) error
+}
+
+// JoinRaft registers a node's state machine (a hashicorp raft.FSM) with the harness.
+var JoinRaft func(serverID string, fsm interface{}, bootstrap bool) RaftNode
+
+// JoinGossip registers a node's gossip delegate (a hashicorp memberlist.Delegate) and its
+// broadcast queue (*memberlist.TransmitLimitedQueue) with the harness.
+var JoinGossip func(serverID string, delegate interface{}, queue interface{})
+
+// LeaveGossip tells the harness the node left the gossip layer.
+var LeaveGossip func(serverID string)
